@@ -90,3 +90,9 @@ CORPUS += [
     Mut('c10-benign-hky-kappa-axis-under-its-own-rank-test', NUC, '', "        kappa = self.kappa\n        return torch.cat(",
         "        kappa = self.kappa.unsqueeze(0).squeeze(0) if self.kappa.dim() == 1 else self.kappa\n        return torch.cat(", mode='text', benign=True),
 ]
+CORPUS += [
+    Mut('c10-skyline-epochs-from-the-first-sample', BD, '', "        indices_x = torch.searchsorted(times, x, right=True) - 1\n",
+        "        indices_x = torch.bucketize(x, times.flatten(0, -2)[0], right=True) - 1\n", mode='text', expect=[('C10.P', 'evolution.bdsk.PiecewiseConstantBirthDeath.log_prob::')]),
+    Mut('c10-benign-skyline-epochs-searched-in-a-contiguous-copy', BD, '', "        indices_x = torch.searchsorted(times, x, right=True) - 1\n",
+        "        indices_x = torch.searchsorted(times.contiguous(), x, right=True) - 1\n", mode='text', benign=True),
+]
